@@ -121,7 +121,8 @@ pub struct HistCase {
 
 pub const SENTINEL: &str = "sentinel-7f3a";
 pub const SENTINEL2: &str = "sentinel-91c4";
-pub const OVER_DEEP: usize = 140;
+/// One level more than the documented limit.
+pub const OVER_DEEP: usize = 129;
 
 fn gaps_vec(g: &[GapBytes]) -> Vec<Vec<u8>> {
     g.iter().map(|x| x.0.clone()).collect()
@@ -820,8 +821,24 @@ fn check_storm(case: &HistCase, blobs: &[StormBlob], probe_depth: usize, mon: &m
         _ => true,
     };
     termination_checks(case, &input, &run, mon);
-    if !benign {
+    // Transient read errors (one-shot hard errors) lose the datum in flight but
+    // must leave the depth accounting intact like any other error: the probes
+    // still apply whenever the sentinel in front of them was read back.
+    let transient_only = match &case.source {
+        Source::Stream(p) => p.faults.iter().all(|f| !f.sticky && matches!(f.kind, ReadFaultKind::Hard(_))),
+        _ => true,
+    };
+    if !benign && !transient_only {
         return;
+    }
+    if !benign {
+        let sentinel_at = input.windows(SENTINEL.len()).position(|w| w == SENTINEL.as_bytes()).unwrap_or(0);
+        if run.fired.iter().any(|f| f.at + 2 >= sentinel_at) {
+            // (a shrunk or hand-made case may aim a fault at the probes themselves)
+            mon.count("c03.storm_inconclusive");
+            return;
+        }
+        mon.count("c03.storm_with_transient_faults");
     }
     let sentinel = Value::symbol(SENTINEL);
     let pos = run.steps.iter().position(|s| matches!(&s.res, Ok(Some(v)) if *v == sentinel));
@@ -1460,12 +1477,32 @@ pub fn c03_run(seed: u64, i: u64, tier: Tier, mon: &mut Mon, found: &mut Vec<Fou
             let opts_ix = if rng.chance(2, 3) { opts::PARSE_DEFAULT } else { opts::draw_parse(&mut rng) };
             let probe_depth = if rng.chance(3, 4) { 100 } else { rng.urange(90, 100) };
             let len = storm_text(&blobs, probe_depth).0.len();
-            let source = match rng.below(3) {
+            let mut source = match rng.below(3) {
                 0 if !big => Source::Slice,
                 1 if !big => Source::Str,
                 _ if big => Source::Stream(engine::draw_read_plan(&mut rng, len)),
                 _ => draw_source(&mut rng, len, true, 0),
             };
+            if rng.chance(1, 3) {
+                // one to three transient read errors somewhere in the storm
+                let mut plan = match source {
+                    Source::Stream(p) => p,
+                    _ => engine::draw_read_plan(&mut rng, len),
+                };
+                // strictly inside the storm: the sentinels and probes must be read undisturbed
+                let text = storm_text(&blobs, probe_depth).0;
+                let storm_len = text.windows(SENTINEL.len()).position(|w| w == SENTINEL.as_bytes()).unwrap_or(1).saturating_sub(2).max(1);
+                for n in 0..rng.urange(1, 3) {
+                    plan.faults.push(ReadFault {
+                        at: rng.usize_below(storm_len),
+                        kind: ReadFaultKind::Hard(*rng.pick(&[Kind::WouldBlock, Kind::TimedOut, Kind::Other, Kind::ConnectionReset])),
+                        sticky: false,
+                        id: 600 + n as u64,
+                        payload: payload_for(rng.usize_below(8)),
+                    });
+                }
+                source = Source::Stream(plan);
+            }
             let drain = *rng.pick(&VALUE_OPS);
             let case = HistCase { opts: opts_ix, source, workload: Workload::Storm { blobs, probe_depth }, ops: vec![], then_drain: Some(drain) };
             run_and_collect(case, mon, found);
